@@ -11,6 +11,9 @@ Record XInv (c : cat) : Prop := {
   xv_pos : 0 <= c_maxix c;
   xv_ixb : forall ig i, In ig (c_igs c) -> In i (ig_ixs ig) -> 1 <= ci_id i <= c_maxix c;
   xv_sxb : forall sg s, In sg (c_sgs c) -> In s (sg_shards sg) -> cs_ix s <= c_maxix c;
+  xv_shb : forall sg s, In sg (c_sgs c) -> In s (sg_shards sg) -> cs_id s <= c_maxsh c;
+  xv_shu : forall g1 g2 s1 s2, In g1 (c_sgs c) -> In g2 (c_sgs c) -> In s1 (sg_shards g1) -> In s2 (sg_shards g2) ->
+           cs_id s1 = cs_id s2 -> sg_end g1 = sg_end g2 /\ sg_rp g1 = sg_rp g2 /\ cs_ix s1 = cs_ix s2;
   xv_igb : forall ig, In ig (c_igs c) -> ig_id ig <= c_maxig c;
   xv_sgb : forall sg, In sg (c_sgs c) -> sg_id sg <= c_maxsg c;
   xv_igu : forall g1 g2, In g1 (c_igs c) -> In g2 (c_igs c) -> ig_id g1 = ig_id g2 -> ig_end g1 = ig_end g2 /\ ig_rp g1 = ig_rp g2;
@@ -27,7 +30,7 @@ Proof. constructor; cbn; try tauto; lia. Qed.
 (* ------------------------------------------------------------------ shrinking / re-flagging keeps the invariant *)
 Definition sub_sgs (l' l : list sgroup) : Prop :=
   forall g', In g' l' -> exists g, In g l /\ sg_id g' = sg_id g /\ sg_end g' = sg_end g /\ sg_rp g' = sg_rp g /\
-    forall s', In s' (sg_shards g') -> exists s, In s (sg_shards g) /\ cs_ix s' = cs_ix s.
+    forall s', In s' (sg_shards g') -> exists s, In s (sg_shards g) /\ cs_ix s' = cs_ix s /\ cs_id s' = cs_id s.
 Definition sub_igs (l' l : list igroup) : Prop :=
   forall g', In g' l' -> exists g, In g l /\ ig_id g' = ig_id g /\ ig_end g' = ig_end g /\ ig_rp g' = ig_rp g /\
     forall i', In i' (ig_ixs g') -> exists i, In i (ig_ixs g) /\ ci_id i' = ci_id i.
@@ -39,14 +42,20 @@ Proof. intros g Hg. exists g. repeat split; auto. intros s Hs. eauto. Qed.
 
 Lemma XInv_sub c c' :
   XInv c -> sub_sgs (c_sgs c') (c_sgs c) -> sub_igs (c_igs c') (c_igs c) ->
-  c_maxix c <= c_maxix c' -> c_maxig c <= c_maxig c' -> c_maxsg c <= c_maxsg c' -> XInv c'.
+  c_maxix c <= c_maxix c' -> c_maxig c <= c_maxig c' -> c_maxsg c <= c_maxsg c' -> c_maxsh c <= c_maxsh c' -> XInv c'.
 Proof.
-  intros I Ss Si Mx Mi Ms. constructor.
+  intros I Ss Si Mx Mi Ms Mh. constructor.
   - pose proof (xv_pos _ I). lia.
   - intros ig i Hg Hi. destruct (Si _ Hg) as (g & Hg0 & _ & _ & _ & Hix). destruct (Hix _ Hi) as (i0 & Hi0 & E).
     pose proof (xv_ixb _ I _ _ Hg0 Hi0). lia.
-  - intros sg s Hg Hs. destruct (Ss _ Hg) as (g & Hg0 & _ & _ & _ & Hsh). destruct (Hsh _ Hs) as (s0 & Hs0 & E).
+  - intros sg s Hg Hs. destruct (Ss _ Hg) as (g & Hg0 & _ & _ & _ & Hsh). destruct (Hsh _ Hs) as (s0 & Hs0 & E & _).
     pose proof (xv_sxb _ I _ _ Hg0 Hs0). lia.
+  - intros sg s Hg Hs. destruct (Ss _ Hg) as (g & Hg0 & _ & _ & _ & Hsh). destruct (Hsh _ Hs) as (s0 & Hs0 & _ & E).
+    pose proof (xv_shb _ I _ _ Hg0 Hs0). lia.
+  - intros g1 g2 s1 s2 H1 H2 Hs1 Hs2 E.
+    destruct (Ss _ H1) as (a & Ha & _ & Eae & Ear & Hsa). destruct (Ss _ H2) as (b & Hb & _ & Ebe & Ebr & Hsb).
+    destruct (Hsa _ Hs1) as (t1 & Ht1 & X1 & Y1). destruct (Hsb _ Hs2) as (t2 & Ht2 & X2 & Y2).
+    destruct (xv_shu _ I a b t1 t2 Ha Hb Ht1 Ht2) as (P & Q & R); [congruence|]. repeat split; congruence.
   - intros ig Hg. destruct (Si _ Hg) as (g & Hg0 & E & _). pose proof (xv_igb _ I _ Hg0). lia.
   - intros sg Hg. destruct (Ss _ Hg) as (g & Hg0 & E & _). pose proof (xv_sgb _ I _ Hg0). lia.
   - intros g1 g2 H1 H2 E. destruct (Si _ H1) as (a & Ha & Ea & Eae & Ear & _). destruct (Si _ H2) as (b & Hb & Eb & Ebe & Ebr & _).
@@ -59,7 +68,7 @@ Proof.
     destruct (xv_ixu _ I a b j1 j2 Ha Hb Hj1 Hj2) as (X & Y); [congruence|]. split; congruence.
   - intros sg s ig i Hsg Hs Hig Hi E.
     destruct (Ss _ Hsg) as (a & Ha & _ & Eae & Ear & Hsa). destruct (Si _ Hig) as (b & Hb & _ & Ebe & Ebr & Hxb).
-    destruct (Hsa _ Hs) as (s0 & Hs0 & E1). destruct (Hxb _ Hi) as (i0 & Hi0 & E2).
+    destruct (Hsa _ Hs) as (s0 & Hs0 & E1 & _). destruct (Hxb _ Hi) as (i0 & Hi0 & E2).
     destruct (xv_cover _ I a s0 b i0 Ha Hs0 Hb Hi0) as (X & Y); [congruence|]. split; [lia|congruence].
 Qed.
 
@@ -76,7 +85,7 @@ Lemma sub_prune_sg rep c id : sub_sgs (c_sgs (prune_sg rep c id)) (c_sgs c).
 Proof.
   intros g'. unfold prune_sg; cbn. rewrite filter_In, in_map_iff. intros ((g & <- & Hg) & _).
   exists g. destruct (prune_mark_sg_head rep id g) as (A & B & _ & D & _). repeat split; auto.
-  intros s' Hs'. destruct (Forall2_in_r _ _ _ _ (prune_mark_sg_shards rep id g) Hs') as (x & Hx & (_ & _ & E) & _). eauto.
+  intros s' Hs'. destruct (Forall2_in_r _ _ _ _ (prune_mark_sg_shards rep id g) Hs') as (x & Hx & (E0 & _ & E) & _). eauto.
 Qed.
 Lemma sub_prune_ig rep c id : sub_igs (c_igs (prune_ig rep c id)) (c_igs c).
 Proof.
@@ -125,6 +134,18 @@ Proof.
   induction n as [|n IH]; cbn; [tauto|]. intros k m g s [<-|H]; cbn; [eauto|]. eapply IH; eauto.
 Qed.
 
+Lemma fresh_shards_id n : forall k m g s, In s (fresh_shards n k m g) -> m < cs_id s <= m + Z.of_nat n.
+Proof.
+  induction n as [|n IH]; cbn [fresh_shards In]; [tauto|]. intros k m g s [<-|H]; [cbn; lia|]. specialize (IH _ _ _ _ H). lia.
+Qed.
+Lemma fresh_shards_inj n : forall k m g s1 s2, In s1 (fresh_shards n k m g) -> In s2 (fresh_shards n k m g) -> cs_id s1 = cs_id s2 -> s1 = s2.
+Proof.
+  induction n as [|n IH]; cbn [fresh_shards In]; [tauto|]. intros k m g s1 s2 [<-|H1] [<-|H2] E; auto.
+  - apply fresh_shards_id in H2. cbn in E. lia.
+  - apply fresh_shards_id in H1. cbn in E. lia.
+  - eapply IH; eauto.
+Qed.
+
 (* ------------------------------------------------------------------ the repaired index-group choice *)
 Definition same_but_igs (c c1 : cat) : Prop :=
   c_sgs c1 = c_sgs c /\ c_pols c1 = c_pols c /\ c_ptnum c1 = c_ptnum c /\ c_maxsg c1 = c_maxsg c /\ c_maxsh c1 = c_maxsh c.
@@ -147,6 +168,8 @@ Proof.
     + specialize (Old _ _ Hg Hi). lia.
     + specialize (Fr _ Hi). lia.
   - intros sg s Hg Hs. pose proof (xv_sxb _ I _ _ Hg Hs). lia.
+  - apply (xv_shb _ I).
+  - apply (xv_shu _ I).
   - intros ig Hg. apply in_app_or in Hg. destruct Hg as [Hg|[<-|[]]]; [pose proof (xv_igb _ I _ Hg); lia|cbn; lia].
   - apply (xv_sgb _ I).
   - intros g1 g2 H1 H2 E. apply in_app_or in H1. apply in_app_or in H2.
@@ -206,6 +229,15 @@ Proof.
   - apply (xv_pos _ I1).
   - apply (xv_ixb _ I1).
   - intros sg s Hg Hs. apply in_app_or in Hg. destruct Hg as [Hg|[<-|[]]]; [apply (xv_sxb _ I1 _ _ Hg Hs)|apply (New _ Hs)].
+  - intros sg s Hg Hs. apply in_app_or in Hg. destruct Hg as [Hg|[<-|[]]].
+    + pose proof (xv_shb _ I1 _ _ Hg Hs). lia.
+    + apply fresh_shards_id in Hs. lia.
+  - intros g1 g2 s1 s2 H1 H2 Hs1 Hs2 E. apply in_app_or in H1. apply in_app_or in H2.
+    destruct H1 as [H1|[<-|[]]], H2 as [H2|[<-|[]]].
+    + apply (xv_shu _ I1 g1 g2 s1 s2); auto.
+    + pose proof (xv_shb _ I1 _ _ H1 Hs1). apply fresh_shards_id in Hs2. lia.
+    + pose proof (xv_shb _ I1 _ _ H2 Hs2). apply fresh_shards_id in Hs1. lia.
+    + rewrite (fresh_shards_inj _ _ _ _ _ _ Hs1 Hs2 E). auto.
   - apply (xv_igb _ I1).
   - intros sg Hg. apply in_app_or in Hg. destruct Hg as [Hg|[<-|[]]]; [pose proof (xv_sgb _ I1 _ Hg); lia|cbn; lia].
   - apply (xv_igu _ I1).
@@ -249,6 +281,8 @@ Proof.
     + pose proof (xv_ixb _ I _ _ Hg H). unfold n. lia.
     + specialize (Fr _ H). fold n. lia.
   - intros sg s Hg Hs. pose proof (xv_sxb _ I _ _ Hg Hs). unfold n. lia.
+  - apply (xv_shb _ I).
+  - apply (xv_shu _ I).
   - intros ig Hg. apply in_map_iff in Hg. destruct Hg as (g & <- & Hg). destruct (Hd g) as (-> & _). apply (xv_igb _ I _ Hg).
   - apply (xv_sgb _ I).
   - intros g1 g2 H1 H2 E. apply in_map_iff in H1. apply in_map_iff in H2. destruct H1 as (a & <- & Ha), H2 as (b & <- & Hb).
@@ -289,6 +323,16 @@ Proof.
   - apply (xv_ixb _ I1).
   - intros sg s Hg Hs. apply in_map_iff in Hg. destruct Hg as (g & <- & Hg). destruct (Hx _ _ Hs) as [X|(_ & ->)];
       [apply (xv_sxb _ I1 _ _ Hg X)|exact Nb].
+  - intros sg s Hg Hs. apply in_map_iff in Hg. destruct Hg as (g & <- & Hg). destruct (Hx _ _ Hs) as [X|(_ & ->)].
+    + pose proof (xv_shb _ I1 _ _ Hg X). lia.
+    + cbn. lia.
+  - intros g1 g2 s1 s2 H1 H2 Hs1 Hs2 E. apply in_map_iff in H1. apply in_map_iff in H2. destruct H1 as (a & <- & Ha), H2 as (b & <- & Hb).
+    destruct (Hd a) as (_ & -> & ->), (Hd b) as (_ & -> & ->).
+    destruct (Hx _ _ Hs1) as [X1|(G1 & ->)], (Hx _ _ Hs2) as [X2|(G2 & ->)].
+    + apply (xv_shu _ I1 a b s1 s2); auto.
+    + pose proof (xv_shb _ I1 _ _ Ha X1). cbn in E. lia.
+    + pose proof (xv_shb _ I1 _ _ Hb X2). cbn in E. lia.
+    + destruct (xv_sgu _ I1 a b Ha Hb) as (P & Q); [congruence|]. auto.
   - apply (xv_igb _ I1).
   - intros sg Hg. apply in_map_iff in Hg. destruct Hg as (g & <- & Hg). destruct (Hd g) as (-> & _). apply (xv_sgb _ I1 _ Hg).
   - apply (xv_igu _ I1).
